@@ -64,11 +64,18 @@ BuildEv(s0, in, s1) ==
                             [] b.k \in {"enable", "disable"} -> ClsHdrs(b.cl)
                             [] isCtl -> <<[g |-> 12, v |-> 1, q |-> IF b.ob = "a2" THEN 40 ELSE 23, a |-> 1, b |-> -1]>>
                             [] b.k = "write_rst" -> <<[g |-> 80, v |-> 1, q |-> 0, a |-> 7, b |-> 7]>>
+                            [] b.k = "write2" ->
+                                 LET h(i) == [g |-> 80, v |-> 1, q |-> 0, a |-> i, b |-> i]
+                                 IN IF b.ob = "bg" THEN <<h(4), h(7)>> ELSE <<h(7), h(4)>>
                             [] OTHER -> <<>>
                   robjs == CASE isCtl -> <<CtlObj(b.ob, 0)>>
                              [] b.k = "write_rst" ->
                                   <<[g |-> 80, v |-> 1, ix |-> 7, ty |-> "", ev |-> FALSE, val |-> "0",
                                      fl |-> -1, tm |-> "", tq |-> "", st |-> -1]>>
+                             [] b.k = "write2" ->
+                                  LET o(i) == [g |-> 80, v |-> 1, ix |-> i, ty |-> "", ev |-> FALSE, val |-> "0",
+                                               fl |-> -1, tm |-> "", tq |-> "", st |-> -1]
+                                  IN IF b.ob = "bg" THEN <<o(4), o(7)>> ELSE <<o(7), o(4)>>
                              [] OTHER -> <<>>
                   bid == Intern(s0, b).id + 1000
                   r == rxf(FcOf(b.k), b.seq, FALSE, hdrs, bid)
